@@ -2,8 +2,14 @@
 use crate::json::J;
 use crate::run::{Cfg, Report};
 
+pub mod cobs;
 pub mod common;
+pub mod crc;
+pub mod dec;
 pub mod enc;
+pub mod frames;
+pub mod misc;
+pub mod ser;
 
 /// Validate the oracles against the documents / published vectors they were written from.
 /// Err => the run is inconclusive (oracle broken), never a violation.
@@ -26,6 +32,14 @@ pub fn dispatch(cfg: &Cfg) -> Option<Report> {
     Some(match cfg.prop.as_str() {
         "C01" => enc::run(cfg, "C01"),
         "C02" => enc::run(cfg, "C02"),
+        "C03" => dec::run_c03(cfg),
+        "C04" => dec::run_c04(cfg),
+        "C05" => ser::run(cfg),
+        "C10" => crc::run(cfg),
+        "C13" => misc::run_c13(cfg),
+        "C20" => misc::run_c20(cfg),
+        "C06" => cobs::run_c06(cfg),
+        "C07" => cobs::run_c07(cfg),
         _ => return None,
     })
 }
